@@ -174,6 +174,9 @@ func genC12(t *rapid.T) C12Case {
 		return s
 	}
 	doc := func() string {
+		if coin(t, "empty-document", 6) {
+			return rapid.SampledFrom([]string{"", "[]\n", "\n", "# nothing\n"}).Draw(t, "empty-doc")
+		}
 		d := genDoc(DocOpts{MaxInsts: 8, MaxIvNum: 12, Settings: 20, Meta: 40, RestPct: 25}).Draw(t, "doc")
 		y := d.YAML()
 		if broken {
@@ -214,7 +217,12 @@ func genC12(t *rapid.T) C12Case {
 		if sym != "" && needsUnderscore(sym) {
 			tgt += "_"
 		}
-		c = C12Case{Argv: []string{"info", "chord", "describe", "-t", tgt + sym}}
+		tgt += sym
+		if broken {
+			// not a single chord symbol at all: the failure must be the same with and without --debug
+			tgt = rapid.SampledFrom([]string{"C[", "C/", "", "H", "C D", "C_", "]", "Cm/", "C[1]", "1"}).Draw(t, "bad-target")
+		}
+		c = C12Case{Argv: []string{"info", "chord", "describe", "-t", tgt}}
 	case "info-key-list":
 		c = C12Case{Argv: []string{"info", "key", "list"}}
 	case "info-key-describe":
